@@ -72,10 +72,22 @@ def generate(rng, tier):
     cfg['n_modules'] = (1, 3)
     cfg['n_funcs'] = (1, 4)
     cfg['max_doctests_per_doc'] = 3
+    cfg['p_name_clash'] = rng.choice([0.0, 0.5])
+    many = rng.random() < 0.002
+    if many:
+        # a module with (a multiple of) 256 doctests: an exit status is eight bits wide
+        cfg['n_modules'] = (1, 1)
+        cfg['n_funcs'] = (256, 256)
+        cfg['max_doctests_per_doc'] = 1
+        cfg['max_steps'] = 1
+        cfg['p_class'] = 0.0
+        cfg['p_moddoc'] = 0.0
+        cfg['p_helper'] = 0.0
+        cfg['forms'] = ['emit', 'assign', 'print']
     world = gen.gen_world(rng, cfg)
     kinds = {}
     for dtid, dt, mod in W.iter_doctests(world):
-        r = rng.random()
+        r = rng.random() if not many else 0.0
         kind = ('pass' if r < 0.45 else 'all_skipped' if r < 0.55 else 'partly_skipped' if r < 0.65 else
                 'comment_only' if r < 0.72 else 'disabled' if r < 0.85 else 'fails_by_text')
         shape_doctest(rng, dt, kind)
@@ -119,14 +131,17 @@ def generate(rng, tier):
                         'durations': rng.choice([None, None, 0, 2])})
     # plan: turn some passing executions into failures
     plan = []
+    if many:
+        ops = [{'op': 'cli', 'argv': ['PATH:' + mods[0], 'all', '--verbose=0']}]
     execs = common.predicted_execs(world, ops)
+    p_fail = 0.25 if not many else 1.0
     for dtid, k, opidx in execs:
-        if kinds.get(dtid) in ('pass', 'partly_skipped', 'disabled') and rng.random() < 0.25:
+        if kinds.get(dtid) in ('pass', 'partly_skipped', 'disabled') and rng.random() < p_fail:
             pts = common.points_of(world, dtid)
             if not pts:
                 continue
             p = rng.choice(pts)
-            if rng.random() < 0.5:
+            if rng.random() < 0.5 and not many:
                 plan.append({'dt': dtid, 'k': k, 'pid': p['pid'], 'kind': rng.choice(['wrong', 'mute'])})
             else:
                 plan.append({'dt': dtid, 'k': k, 'pid': p['pid'], 'kind': 'raise',
